@@ -36,7 +36,7 @@ abbrev Batch := Nat × List Op   -- (watcher, operations in order)
 structure Acc where
   consumed : Nat
   openB : List Batch
-deriving Repr, DecidableEq
+deriving Repr, DecidableEq, Hashable
 
 inductive Res where
   | stop                                              -- cut-off: the cycle ends here
